@@ -51,6 +51,8 @@ def build(n, cmds):
                     ops.MeasureFock() | tuple(q[m] for m in modes)
                 elif kind == "gp":
                     ops.Rgate(q[dep].par * 0.5) | q[modes[0]]
+                elif kind == "del":
+                    ops.Del | q[modes[0]]
                 else:
                     raise ValueError(kind)
     except Exception:
@@ -276,6 +278,12 @@ def gbs_case(rng):
     for _ in range(k):
         ms = rng.sample(range(n), rng.randint(1, n))
         cmds.insert(rng.randint(0, len(cmds)), ("mf", ms, None))
+    if n >= 2 and rng.random() < 0.35:
+        # a deleted mode: every later command must avoid it (the front end rejects uses of a deleted mode)
+        dm = rng.randrange(n)
+        pos = rng.randint(0, len(cmds))
+        kept = cmds[:pos] + [("del", [dm], None)] + [c for c in cmds[pos:] if dm not in c[1]]
+        cmds = kept
     return n, cmds
 
 
@@ -343,12 +351,13 @@ def search(ctx):
             ctx.counterexample("gbs:measurement-collection", "compiled circuit measures %s, expected one final MeasureFock on %s" % (meas, ms), data)
             continue
         # the non-measurement part must be the commands of A with the same per-wire order
-        exp = [(("Rgate" if cmds[i][0] == "g1" else "BSgate"), cmds[i][1]) for i in ia]
+        NAME = {"g1": "Rgate", "g2": "BSgate", "del": "_Delete"}
+        exp = [(NAME[cmds[i][0]], cmds[i][1]) for i in ia]
         if sorted(map(repr, others)) != sorted(map(repr, exp)):
             ctx.counterexample("gbs:commands-changed", "compiled Gaussian part %s differs from the source's %s" % (others, exp), data)
             continue
         for w in range(n):
-            if [c for c in others if w in c[1]] != [c for c in [(("Rgate" if k == "g1" else "BSgate"), m) for k, m, _ in cmds if k != "mf"] if w in c[1]]:
+            if [c for c in others if w in c[1]] != [c for c in [(NAME[k], m) for k, m, _ in cmds if k != "mf"] if w in c[1]]:
                 ctx.counterexample("gbs:wire-order", "order of the commands on wire %d changed" % w, data)
                 break
     ctx.traces += len(cases)
